@@ -55,7 +55,9 @@ func NewDB(r *rand.Rand, o GenOpts) *DB {
 		if r.Intn(2) == 0 {
 			s.Labels["pod"] = fmt.Sprintf("p%d", r.Intn(4))
 		}
-		if o.Numeric || r.Intn(3) == 0 {
+		if o.Numeric {
+			s.Labels["num"] = []string{"0", "1", "2", "5", "10", "2.5", "-3", "7"}[r.Intn(8)]
+		} else if r.Intn(3) == 0 {
 			s.Labels["num"] = []string{"0", "1", "2", "5", "10", "2.5", "-3", "abc", "7"}[r.Intn(9)]
 		}
 		// the label set must be unique
@@ -310,12 +312,23 @@ func GenMetricQuery(r *rand.Rand, d *DB, o GenOpts, rng time.Duration) *MetricQu
 	}
 	if unwrap {
 		m.Fn = unwrapFns[r.Intn(len(unwrapFns))]
-		if o.JSONLines && r.Intn(2) == 0 {
-			m.Log.Stages = append(m.Log.Stages, Stage{Kind: "jsonp", Params: []Param{{A: "nv", B: "n"}}}, Stage{Kind: "unwrap", Val: "nv"})
-		} else {
+		// qryn unwraps labels only (unwrap_value is accepted by its grammar but not implemented:
+		// a probe class, generated rarely), and needs a stage that joins the labels first
+		switch k := r.Intn(10); {
+		case k == 0:
 			m.Log.Stages = append(m.Log.Stages, Stage{Kind: "unwrap", Val: ""})
+		case o.JSONLines && k <= 5:
+			m.Log.Stages = append(m.Log.Stages, Stage{Kind: "jsonp", Params: []Param{{A: "nv", B: "n"}}}, Stage{Kind: "unwrap", Val: "nv"})
+			if r.Intn(6) != 0 {
+				m.RangeGrp = genGrouping(r, extracted)
+				m.RangeGrp.By = true
+			}
+		case o.JSONLines:
+			m.Log.Stages = append(m.Log.Stages, Stage{Kind: "jsonp", Params: []Param{{A: "lvl2", B: "lvl2"}}}, Stage{Kind: "unwrap", Val: "num"})
+		default:
+			m.Log.Stages = append(m.Log.Stages, Stage{Kind: "regexp", Val: `id=(?P<rid>\d+) took`}, Stage{Kind: "unwrap", Val: "num"})
 		}
-		if r.Intn(3) == 0 {
+		if m.RangeGrp == nil && r.Intn(3) == 0 {
 			m.RangeGrp = genGrouping(r, extracted)
 		}
 	} else {
@@ -326,7 +339,7 @@ func GenMetricQuery(r *rand.Rand, d *DB, o GenOpts, rng time.Duration) *MetricQu
 	}
 	if r.Intn(2) == 0 {
 		m.Agg = []string{"sum", "avg", "min", "max", "count"}[r.Intn(5)]
-		if r.Intn(3) != 0 {
+		if r.Intn(8) != 0 {
 			m.AggGrp = genGrouping(r, extracted)
 		}
 		if r.Intn(5) == 0 {
